@@ -170,6 +170,18 @@ def _run(spec, prop, tier, seed, replay_path, wd):
            "liveness": [], "exhaustive": True}
     violations, known_lines, drift = [], [], 0
     summary = {}
+    if spec.get("rec_files"):
+        # the files `!rec` nodes may name: real files in the directory the library runs in (sources are given as text, so the
+        # names are looked up in the current directory) and, for TLC, the same documents as JSON (spec/AyFiles.tla)
+        recdir = os.path.join(wd, "recfiles")
+        os.makedirs(recdir, exist_ok=True)
+        for name, sd in spec["rec_files"].items():
+            with open(os.path.join(recdir, name), "w") as f:
+                f.write(S.render_doc(sd))
+        with open(os.path.join(recdir, "rec_files.json"), "w") as f:
+            json.dump([{"name": n, "doc": sd} for n, sd in sorted(spec["rec_files"].items())], f)
+        os.environ["REC_FILES"] = os.path.join(recdir, "rec_files.json")
+        os.chdir(recdir)
     if replay_path:
         body = json.load(open(replay_path))
         _init([], life, bool(spec.get("with_docs")))
